@@ -29,8 +29,8 @@ var Current *Script
 var ErrStart = errors.New("vexec: helper cannot be started")
 
 type Process struct {
-	dead   bool
-	cmd    *Cmd
+	dead    bool
+	cmd     *Cmd
 	pending int // the helper's writes into the stdout pipe that are under way
 }
 
